@@ -83,5 +83,31 @@ let c10_ts_parse args =
   | [text] -> of_opt (fun n -> A ("n" ^ string_of_int (int_of_nat n))) (Model.c10_ts_recognise (to_str text))
   | _ -> raise (Bad "c10_ts_parse args")
 
+(* (c10_cfg LANG CFG) -> bool: the configuration is admissible for the whole-file theorem of the language *)
+let c10_cfg args =
+  let open Drv_gen in
+  match args with
+  | [A lang; cfg] ->
+    of_bool
+      (match lang with
+       | "typescript" ->
+         Model.c10_ts_cfg_ok { Model.ts_type_mappings = cfg_map cfg "type_mappings"; Model.ts_no_version_header = cfg_bool cfg "no_version_header" true;
+                               Model.ts_version = cfg_str cfg "version" }
+       | "kotlin" ->
+         Model.c10_kt_cfg_ok { Model.kt_package = cfg_str cfg "package"; Model.kt_module_name = cfg_str cfg "module_name";
+                               Model.kt_prefix = cfg_str cfg "prefix"; Model.kt_type_mappings = cfg_map cfg "type_mappings";
+                               Model.kt_no_version_header = cfg_bool cfg "no_version_header" true; Model.kt_version = cfg_str cfg "version" }
+       | "scala" ->
+         Model.c10_sc_cfg_ok { Model.sc_package = cfg_str cfg "package"; Model.sc_module_name = cfg_str cfg "module_name";
+                               Model.sc_type_mappings = cfg_map cfg "type_mappings";
+                               Model.sc_no_version_header = cfg_bool cfg "no_version_header" true; Model.sc_version = cfg_str cfg "version" }
+       | "go" -> Model.c10_go_cfg_ok (Drv_lang_go.go_config cfg)
+       | "swift" -> Model.c10_sw_cfg_ok (Drv_lang_swift.sw_config_of cfg)
+       | "python" ->
+         Model.c10_py_cfg_ok { Model.py_type_mappings = cfg_map cfg "type_mappings"; Model.py_no_version_header = cfg_bool cfg "no_version_header" true;
+                               Model.py_version = cfg_str cfg "version" }
+       | _ -> raise (Bad "c10_cfg lang"))
+  | _ -> raise (Bad "c10_cfg args")
+
 let () = register "c10_lex" c10_lex; register "c10_cls" c10_cls; register "c10_kw" c10_kw; register "c10_kw_model" c10_kw_model;
-  register "c10_ts_parse" c10_ts_parse
+  register "c10_ts_parse" c10_ts_parse; register "c10_cfg" c10_cfg
